@@ -42,8 +42,8 @@ import BpProofs.JsonGuard
       its default) or — where `m` holds a default-valued, unselected, non-optional,
       not-on-the-wire value — PLACEHOLDER, which reads as that default (`deqv_state`;
       `deqv_dumpVal`: `≈` implies equal bytes for typed values).  The induction is structural
-      over `Val` / `List Val`: singular /
-      proto3-optional / oneof-member sub-messages, repeated messages, `map<string, Msg>`.
+      over `Val` / `List Val`: singular / proto3-optional / oneof-member sub-messages, repeated
+      messages, `map<string, Msg>`.
       GUARDS, all decidable.  On the SCHEMA: `jsonOk S E cs` (D15 `namesOk`; D17 `fieldJsonOk`:
       string map keys only, no bytes / Timestamp / Duration map values, no BytesValue wrapper, no
       repeated wrappers; `enumOk`) and `groupsOk S` (a field's oneof index is a group of its
@@ -74,7 +74,8 @@ import BpProofs.JsonGuard
       former counterexamples and on a two-level chain (`m.a.b.items.append(1)`).  Consequently
       `deqv_bytes` (`≈` implies equal bytes) now has the hypotheses `jsonOk` (only "map fields are
       singular" is used) and `wellTyped'`: without typing, an unmarked sub-message could hold
-      non-default content that encodes to nothing (e.g. `None` in a plain int field).
+      non-default content that encodes to nothing (`None` in a plain int field:
+      `deqv_bytes_needs_typing_witness`).
   NOT PROVED: nothing of the full statement inside the guards.  Outside: the instance form on a
   NON-fresh instance (merge semantics) is not stated; `include_default_values=True` is not covered.
 -/
@@ -282,6 +283,26 @@ theorem deqv_bytes (S : Schema) (E : Enums) (cs : KeyCase) (m m' : Val) (hjson :
   simp only [Bool.and_eq_true, List.all_eq_true] at hjson
   exact (hjson.1 d hd).1 f hfd
 
+def Styp : Schema := [
+  { fields := [{ name := "a", num := 1, ty := .message, kind := .user 1 }] },
+  { fields := [{ name := "x", num := 1, ty := .int32 }] }]
+/-- why `deqv_bytes` asks for a typed value: an UNMARKED sub-message holding `None` in a plain
+    `int32` slot (ill-typed; no operation of the library produces it) differs from `Sub()`, so `≈`
+    relates it to its marked counterpart, but its body encodes to nothing: `dump` skips the
+    unmarked one (`serialize_empty` False) and emits an empty record for the marked one -/
+theorem deqv_bytes_needs_typing_witness :
+    DEqv Styp (.msg 0 [.msg 1 [.none] false [] []] false [] []) (.msg 0 [.msg 1 [.none] true [] []] true [] []) ∧
+    wellTyped' Styp (.msg 0 [.msg 1 [.none] false [] []] false [] []) = false ∧
+    dumpVal Styp (.msg 0 [.msg 1 [.none] false [] []] false [] []) = .ok [] ∧
+    dumpVal Styp (.msg 0 [.msg 1 [.none] true [] []] true [] []) = .ok [10, 0] := by
+  refine ⟨?_, by decide, by decide, by decide⟩
+  apply DEqv.msg
+  refine SlotsDEqv.same _ _ _ { name := "a", num := 1, ty := .message, kind := .user 1 } _ _ _ _ (by rfl) ?_ (by decide)
+    (SlotsDEqv.nil _ _ _)
+  apply DEqv.msg
+  exact SlotsDEqv.same _ _ _ { name := "x", num := 1, ty := .int32 } _ _ _ _ (by rfl) (DEqv.atom _ rfl) (by rfl)
+    (SlotsDEqv.nil _ _ _)
+
 /-- **C04, class form, nested messages** (message-typed singular / proto3-optional / oneof-member
     / repeated fields and `map<string, Msg>`, to any depth, recursive classes included):
     `Cls.from_dict(m.to_dict(casing))` returns a message equivalent to `m` that encodes to the
@@ -480,3 +501,4 @@ end Bp.C04
 #print axioms Bp.C04.roundtrip_flat
 #print axioms Bp.C04.roundtrip_nested_instance
 #print axioms Bp.C04.deqv_bytes
+#print axioms Bp.C04.deqv_bytes_needs_typing_witness
